@@ -187,7 +187,9 @@ func GenOldTree(t *rapid.T, o GenOpts) Tree {
 }
 
 func GenDest(t *rapid.T) string {
-	return rapid.SampledFrom([]string{"a", "b", "c", "d", "a/b", "../x", "nowhere"}).Draw(t, "dest")
+	// destinations are opaque strings to wharf: also forms that path cleaning would rewrite
+	return rapid.SampledFrom([]string{"a", "b", "c", "d", "a/b", "../x", "nowhere",
+		"./a", "b/", "a//b", "c/../d", "./b/./c"}).Draw(t, "dest")
 }
 
 // place puts entry e at path dst in tr if the generator's validity rules allow
